@@ -226,7 +226,7 @@ TextFile& TextFile::operator>>(unsigned &x)
 {
 	if(!_file && !open(READ))
 		return *this;
-	int n = fscanf(_file, "%ui", &x); if (n < 1) {}
+	int n = fscanf(_file, "%u", &x); if (n < 1) {}
 	return *this;
 }
 
